@@ -945,28 +945,6 @@ func c07Scenarios(c *vk.Ctx) []c07Scenario {
 		}
 		return append(ops, c07KV([]int{c07Fill(ri, 0), c07Fill(ri, 16), c07NilID}, 1, 0)...)
 	}
-	// F<r>: the node at trie level r on the path of B is loaded with filler keys
-	for ri, r := range c07FillLevels {
-		bases := []c07Base{{"L15", load(ri, 15)}, {"S9", shrunk(ri, 9)}}
-		ks := named[r]
-		if thorough {
-			bases = append(bases, c07Base{"L16", load(ri, 16)}, c07Base{"L17", load(ri, 17)}, c07Base{"S8", shrunk(ri, 8)})
-			ks = append(append([]int{}, ks...), c07C6)
-		}
-		scs = append(scs, c07Scenario{name: fmt.Sprintf("F%d", r), bases: bases, ops: fillOps(ri, ks)})
-	}
-	if thorough {
-		// F01: the root is an array node (17 level-0 fillers) and its child on the path of B is loaded too
-		bases := []c07Base{
-			{"L17/L15", append(load(0, 17), load(1, 15)...)},
-			{"L17/S9", append(load(0, 17), shrunk(1, 9)...)},
-			{"S9/L15", append(shrunk(0, 9), load(1, 15)...)},
-			{"S9/S9", append(shrunk(0, 9), shrunk(1, 9)...)},
-		}
-		ops := fillOps(1, named[1])
-		ops = append(ops, c07KV([]int{c07Fill(0, 0)}, 1, 0)...)
-		scs = append(scs, c07Scenario{name: "F01", bases: bases, ops: ops})
-	}
 	// G1: the node below the root on the path of B grows from nothing to an array node and
 	// is drained to nothing again, any number of times: the 17 level-1 fillers are added in
 	// index order and removed in reverse order (stack discipline), interleaved freely with
@@ -991,6 +969,28 @@ func c07Scenarios(c *vk.Ctx) []c07Scenario {
 			}
 			return o.key == lo || m[o.key-1] != 0
 		}})
+	// F<r>: the node at trie level r on the path of B is loaded with filler keys
+	for ri, r := range c07FillLevels {
+		bases := []c07Base{{"L15", load(ri, 15)}, {"S9", shrunk(ri, 9)}}
+		ks := named[r]
+		if thorough {
+			bases = append(bases, c07Base{"L16", load(ri, 16)}, c07Base{"L17", load(ri, 17)}, c07Base{"S8", shrunk(ri, 8)})
+			ks = append(append([]int{}, ks...), c07C6)
+		}
+		scs = append(scs, c07Scenario{name: fmt.Sprintf("F%d", r), bases: bases, ops: fillOps(ri, ks)})
+	}
+	if thorough {
+		// F01: the root is an array node (17 level-0 fillers) and its child on the path of B is loaded too
+		bases := []c07Base{
+			{"L17/L15", append(load(0, 17), load(1, 15)...)},
+			{"L17/S9", append(load(0, 17), shrunk(1, 9)...)},
+			{"S9/L15", append(shrunk(0, 9), load(1, 15)...)},
+			{"S9/S9", append(shrunk(0, 9), shrunk(1, 9)...)},
+		}
+		ops := fillOps(1, named[1])
+		ops = append(ops, c07KV([]int{c07Fill(0, 0)}, 1, 0)...)
+		scs = append(scs, c07Scenario{name: "F01", bases: bases, ops: ops})
+	}
 	return scs
 }
 
